@@ -757,7 +757,7 @@ func init() {
 	core.Register(&core.Prop{
 		ID:        "C07",
 		Technique: "Go race detector over free-running concurrent first use on fresh instances (delays injected at verif yield hooks) + serialising PCT scheduler at the yield hooks with a sequentially built reference instance as oracle + post-quiescence conformance of the shared instance",
-		Rule: "one trial = a fresh Plenc instance (so every codec is built for the first time inside the trial), one of 9 type families (self-recursive through slice/pointer/map, mutually recursive pair and triple, diamond, struct-keyed maps, named/interned, the intern option on struct-typed fields, mixed), 2-8 goroutines x 2-5 operations (Marshal / Unmarshal / CodecForType / CodecForTypeWithTag with the option that selects another codec, on entry types of the family) whose results were pre-computed on a reference instance; the first case of every shard uses the package-level default instance over all library types. Every 397th case is a big-table trial (an interned field holding 4200+ values, 8 free-running goroutines), every 199th a steady-state trial (about 260 generated top-level types plus structs stored directly in the interface word on one instance, all codecs built beforehand, 8-16 free-running goroutines x 960 Marshal by pointer / by value and Unmarshal calls). " +
+		Rule: "every 101st case: 16 goroutines x 40 Marshal calls of values whose nested structs encode to 16 KiB and more, each of another size, compared with the call alone. Otherwise one trial = a fresh Plenc instance (so every codec is built for the first time inside the trial), one of 9 type families (self-recursive through slice/pointer/map, mutually recursive pair and triple, diamond, struct-keyed maps, named/interned, the intern option on struct-typed fields, mixed), 2-8 goroutines x 2-5 operations (Marshal / Unmarshal / CodecForType / CodecForTypeWithTag with the option that selects another codec, on entry types of the family) whose results were pre-computed on a reference instance; the first case of every shard uses the package-level default instance over all library types. Every 397th case is a big-table trial (an interned field holding 4200+ values, 8 free-running goroutines), every 199th a steady-state trial (about 260 generated top-level types plus structs stored directly in the interface word on one instance, all codecs built beforehand, 8-16 free-running goroutines x 960 Marshal by pointer / by value and Unmarshal calls). " +
 			"plain lane: a serialising scheduler with PCT priorities switches goroutines at the 6 yield hooks only - the trace of (goroutine, yield point) pairs is the interleaving; distinct_nontrivial counts distinct trace hashes. race lane: the same trials free-running with non-synchronising delays at the hooks; any race report is a violation.",
 		Exhaustive: []string{"thorough tier, lane systematic: for 2 goroutines x 3 operations on each of the 9 type families, ALL schedules with at most 3 preemptions at yield points, both start orders (stateless re-execution on fresh instances)"},
 		Assume:     []string{"yield hooks cover the registry load/store, the struct field loop, the intern-table miss and the map scratch pool; preemption elsewhere is only reached by the free-running lane", "the race detector's happens-before analysis"},
